@@ -209,6 +209,10 @@ pub fn run_cases(args: &Args, rep: &mut Report, cases: Vec<Case>, plan: &Plan) {
             };
             por_blocked.fetch_add(blocked_runs, std::sync::atomic::Ordering::Relaxed);
             let dt = t0.elapsed().as_secs_f64();
+            if let Some(path) = std::env::var_os("VERIF_DUMP_STATES") {
+                let v: Vec<serde_json::Value> = stx.witness_of_state.iter().map(|(k, (c, ix))| json!({"state": format!("{k:016x}"), "choices": c, "step": ix})).collect();
+                let _ = std::fs::write(format!("{}.{i}.json", path.to_string_lossy()), serde_json::to_string(&v).unwrap_or_default());
+            }
             let mut st = states[i].lock().unwrap();
             st.levels.push((Budget::UNBOUNDED, stx.executions, dt));
             if let Some(cap) = &stx.capped {
